@@ -209,6 +209,25 @@ class Tracer:
                     ev.base = None
                 events.append(ev)
                 continue
+            if isinstance(st, ast.AugAssign) and self._foreign_store(it, st.target, env):
+                # x.attr[k] op= v on an object that is not modelled: the store of (old op v), as an event
+                import copy as _copy
+                load = _copy.copy(st.target)
+                load.ctx = ast.Load()
+                try:
+                    old = it.eval(load, env)
+                    val = it.binop(st.op, old, it.eval(st.value, env), st)
+                except Unsupported:
+                    val = Opaque("augmented:" + norm_src(st.target))
+                t = st.target
+                ev = Event("store", norm_src(t.value) if isinstance(t, ast.Subscript) else norm_src(t), [self._key(it, t, env), val], {}, st,
+                           self._on_elem(t, state), state["pass"])
+                try:
+                    ev.base = it.eval(t.value, env)
+                except Unsupported:
+                    ev.base = None
+                events.append(ev)
+                continue
             if isinstance(st, ast.Return):
                 val = it.eval(st.value, env) if st.value is not None else None
                 events.append(Event("return", "", [val], {}, st, False, state["pass"]))
